@@ -92,13 +92,11 @@ func resolveBufRoles(p *Prog) *bufRoles {
 	}
 	storedIn := func(f *ssa.Function) map[string]bool {
 		m := map[string]bool{}
-		instrsOf(f, func(in ssa.Instruction) {
-			if s, ok := in.(*ssa.Store); ok {
-				if fr, ok := asFieldAddr(s.Addr); ok && fr.SName == r.T {
-					m[fr.Field] = true
-				}
+		for _, in := range findU(f, func(in ssa.Instruction) bool { _, ok := in.(*ssa.Store); return ok }) {
+			if fr, ok := asFieldAddr(in.(*ssa.Store).Addr); ok && fr.SName == r.T {
+				m[fr.Field] = true
 			}
-		})
+		}
 		return m
 	}
 	for f := range storedIn(r.SetLimitCount) {
@@ -107,39 +105,39 @@ func resolveBufRoles(p *Prog) *bufRoles {
 	for f := range storedIn(r.SetLimitSize) {
 		r.limitSize = f
 	}
-	wst, rst := storedIn(r.Write), storedIn(r.Read)
-	for _, n := range ints {
-		if n == r.count || n == r.limitCount || n == r.limitSize {
-			continue
-		}
-		if wst[n] {
-			r.tail = n
-		} else if rst[n] {
-			r.head = n
+	// helpers: the occupancy helper is the one Size() returns; head/tail are its operands (tail - head)
+	for _, in := range findU(r.Size, func(in ssa.Instruction) bool { _, ok := in.(*ssa.Call); return ok }) {
+		if sc := in.(*ssa.Call).Call.StaticCallee(); sc != nil && inModule(sc) && pkgOf(sc) == "packetio" && sc.Signature.Results().Len() == 1 {
+			r.sizeFn = sc
 		}
 	}
-	// helpers
-	instrsOf(r.Size, func(in ssa.Instruction) {
-		if c, ok := in.(*ssa.Call); ok {
-			if sc := c.Call.StaticCallee(); sc != nil && inModule(sc) && pkgOf(sc) == "packetio" {
-				r.sizeFn = sc
-			}
-		}
-	})
-	instrsOf(r.Write, func(in ssa.Instruction) {
-		if c, ok := in.(*ssa.Call); ok {
-			if sc := c.Call.StaticCallee(); sc != nil && inModule(sc) && pkgOf(sc) == "packetio" && sc != r.sizeFn {
-				res := sc.Signature.Results()
-				if res.Len() == 1 {
-					if b, ok := res.At(0).Type().Underlying().(*types.Basic); ok && b.Kind() == types.Bool {
-						r.availFn = sc
-					} else if res.At(0).Type().String() == "error" {
-						r.growFn = sc
-					}
+	if r.sizeFn != nil {
+		instrsOf(r.sizeFn, func(in ssa.Instruction) {
+			if b, ok := in.(*ssa.BinOp); ok && b.Op == token.SUB {
+				fx, okx := asFieldLoad(b.X)
+				fy, oky := asFieldLoad(b.Y)
+				if okx && oky && fx.SName == r.T && fy.SName == r.T && r.tail == "" {
+					r.tail, r.head = fx.Field, fy.Field
 				}
 			}
+		})
+	}
+	_ = ints
+	// growth / free-space helpers: called from Write's unit, returning error / bool
+	for _, in := range findU(r.Write, func(in ssa.Instruction) bool { _, ok := in.(*ssa.Call); return ok }) {
+		sc := in.(*ssa.Call).Call.StaticCallee()
+		if sc == nil || !inModule(sc) || pkgOf(sc) != "packetio" || sc == r.sizeFn || sc.Signature.Recv() == nil {
+			continue
 		}
-	})
+		res := sc.Signature.Results()
+		if res.Len() == 1 {
+			if b, ok := res.At(0).Type().Underlying().(*types.Basic); ok && b.Kind() == types.Bool && sc.Signature.Params().Len() == 1 {
+				r.availFn = sc
+			} else if res.At(0).Type().String() == "error" && sc.Signature.Params().Len() == 0 {
+				r.growFn = sc
+			}
+		}
+	}
 	for name, v := range map[string]string{"mutex": r.mutex, "data": r.data, "notify": r.notify, "closed": r.closed, "count": r.count,
 		"limitCount": r.limitCount, "limitSize": r.limitSize, "head": r.head, "tail": r.tail, "readDeadline": r.readDeadline} {
 		if v == "" {
@@ -266,7 +264,9 @@ func (r *bufRoles) isLockCall(in ssa.Instruction, op string) bool {
 
 func runC08(c *Ctx) {
 	p := c.P
+	setUnitExclude()
 	r := resolveBufRoles(p)
+	setUnitExclude(r.growFn, r.availFn, r.sizeFn)
 	if len(r.problems) > 0 {
 		o := c.Obl("R0", "packetio.Buffer", "anchors of the packet buffer are resolved", 1)
 		for _, pr := range r.problems {
@@ -281,29 +281,32 @@ func runC08(c *Ctx) {
 
 	// R1: writer posts the token on every success path, after storing, under the lock
 	o := c.Obl("R1", fname(r.Write), "every success path of Write posts the wake-up token (non-blocking send) after the packet is stored and before the lock is released", 1)
-	sends := findInstrs(r.Write, isNotifySend)
+	sends := rootEvents(p, r.Write, isNotifySend)
+	if len(sends) == 0 {
+		sends = findU(r.Write, isNotifySend)
+	}
 	for _, s := range sends {
 		o.Site(s.Pos(), "non-blocking send on %s held=%s", r.notify, la.heldAt(s))
 	}
 	nSucc := 0
-	for _, ret := range findInstrs(r.Write, isSuccessReturn) {
+	for _, ret := range findU(r.Write, isSuccessReturn) {
 		nSucc++
 		o.Site(ret.Pos(), "success return")
 	}
 	if nSucc == 0 {
 		o.Undecide("no success return found in Write")
 	}
-	if ok, bad := mustPass(entryPos(r.Write), isSuccessReturn, mustDo(p, isNotifySend)); !ok {
+	if ok, bad := mustPassU(entryPos(r.Write), isSuccessReturn, mustDo(p, isNotifySend)); !ok {
 		o.Fail(bad.Pos(), "a success return of Write is reachable without posting the wake-up token on %s", r.notify)
 	}
-	countInc := findInstrs(r.Write, func(in ssa.Instruction) bool { d, ok := r.fieldDelta(in, r.count); return ok && d == 1 })
+	countInc := findU(r.Write, func(in ssa.Instruction) bool { d, ok := r.fieldDelta(in, r.count); return ok && d == 1 })
 	for _, s := range sends {
-		if !la.holds(s, r.recv(r.Write)+"."+r.mutex, true) {
+		if !la.holdsOwner(s, r.T, true) {
 			o.Fail(s.Pos(), "the token is posted without holding %s (a reader could test, miss the packet and park after the token was consumed)", r.mutex)
 		}
 		dom := false
 		for _, ci := range countInc {
-			if dominates(ci, s) {
+			if domU(ci, s) {
 				dom = true
 			}
 		}
@@ -385,8 +388,8 @@ func runC08(c *Ctx) {
 				}
 				found = true
 				o.Site(waitSel.Pos(), "wake-up case -> block %d", blk.Index)
-				ok, bad := mustPass(blockStart(blk), isReturn, func(in ssa.Instruction) bool {
-					return isEmptyTest(in) && la.holds(in, r.recv(r.Read)+"."+r.mutex, true)
+				ok, bad := mustPassU(blockStart(blk), isReturn, func(in ssa.Instruction) bool {
+					return isEmptyTest(in) && la.holdsOwner(in, r.T, true)
 				})
 				if !ok {
 					o.Fail(bad.Pos(), "after a wake-up Read can return without re-testing head/tail under the lock")
@@ -400,7 +403,7 @@ func runC08(c *Ctx) {
 
 	// R4: EOF only through empty then closed
 	o = c.Obl("R4", fname(r.Read), "end-of-file is reported only when the buffer is empty and closed (emptiness tested first): remaining packets stay readable after Close", 1)
-	eofs := findInstrs(r.Read, func(in ssa.Instruction) bool { return returnsGlobalErr(in, "io", "EOF") })
+	eofs := findU(r.Read, func(in ssa.Instruction) bool { return returnsGlobalErr(in, "io", "EOF") })
 	for _, e := range eofs {
 		o.Site(e.Pos(), "return io.EOF")
 		if !hasFact(e, func(f fact) bool { return emptyFact(f, true) }) {
@@ -411,7 +414,7 @@ func runC08(c *Ctx) {
 		}
 	}
 	// every return of a packet is on the non-empty edge; the closed test must not precede data delivery:
-	for _, in := range findInstrs(r.Read, func(in ssa.Instruction) bool { _, ok := r.fieldDelta(in, r.count); return ok }) {
+	for _, in := range findU(r.Read, func(in ssa.Instruction) bool { _, ok := r.fieldDelta(in, r.count); return ok }) {
 		if hasFact(in, func(f fact) bool { return closedFact(f, false) }) {
 			o.Fail(in.Pos(), "packets are delivered only while the buffer is not closed: data buffered at Close would be lost")
 		}
@@ -424,7 +427,7 @@ func runC08(c *Ctx) {
 		if pkgOf(f) != "packetio" {
 			continue
 		}
-		for _, in := range findInstrs(f, func(in ssa.Instruction) bool {
+		for _, in := range findU(f, func(in ssa.Instruction) bool {
 			if !isCall(in, "builtin.close") {
 				return false
 			}
@@ -436,7 +439,7 @@ func runC08(c *Ctx) {
 	for _, cl := range closes {
 		f := cl.Parent()
 		o.Site(cl.Pos(), "close(%s) in %s held=%s", r.notify, fname(f), la.heldAt(cl))
-		if !la.holds(cl, f.Params[0].Name()+"."+r.mutex, true) {
+		if !la.holdsOwner(cl, r.T, true) {
 			o.Fail(cl.Pos(), "close(%s) is not under the mutex", r.notify)
 		}
 		if !hasFact(cl, func(ft fact) bool { return closedFact(ft, false) }) {
@@ -444,8 +447,8 @@ func runC08(c *Ctx) {
 		}
 		// closed = true in the same critical section: a store of true to closed, dominated by the test, with no unlock between
 		set := false
-		for _, st := range findInstrs(f, func(in ssa.Instruction) bool { return r.isStoreTo(in, r.closed) }) {
-			if la.holds(st, f.Params[0].Name()+"."+r.mutex, true) && sameCritical(r, st, cl) {
+		for _, st := range findU(f, func(in ssa.Instruction) bool { return r.isStoreTo(in, r.closed) }) {
+			if la.holdsOwner(st, r.T, true) && sameCritical(r, st, cl) {
 				set = true
 			}
 		}
@@ -457,9 +460,13 @@ func runC08(c *Ctx) {
 		o.Fail(r.Close.Pos(), "expected exactly one close(%s) site in the package, found %d", r.notify, len(closes))
 	}
 	for _, f := range []*ssa.Function{r.Write, r.Read} {
-		for _, s := range findInstrs(f, isNotifySend) {
+		evs := rootEvents(p, f, isNotifySend)
+		if len(evs) == 0 {
+			evs = findU(f, isNotifySend)
+		}
+		for _, s := range evs {
 			o.Site(s.Pos(), "send on %s in %s", r.notify, fname(f))
-			if !la.holds(s, f.Params[0].Name()+"."+r.mutex, true) {
+			if !la.holdsOwner(s, r.T, true) {
 				o.Fail(s.Pos(), "send on %s outside the mutex can race with close(%s) (send on closed channel panics)", r.notify, r.notify)
 			}
 			if !hasFact(s, func(ft fact) bool { return closedFact(ft, false) }) {
@@ -492,15 +499,15 @@ func runC08(c *Ctx) {
 
 	// R6: baton pass
 	o = c.Obl("R6", fname(r.Read), "a reader that takes a packet passes the token on unless the buffer is now empty or closed (two writes leave one token for two parked readers)", 1)
-	decs := findInstrs(r.Read, func(in ssa.Instruction) bool { d, ok := r.fieldDelta(in, r.count); return ok && d == -1 })
+	decs := findU(r.Read, func(in ssa.Instruction) bool { d, ok := r.fieldDelta(in, r.count); return ok && d == -1 })
 	if len(decs) == 0 {
 		o.Undecide("count-- not found in Read")
 	}
 	// region: from the true edge of the first emptiness test (data present) to the unlock
 	var firstTest *ssa.If
-	for _, in := range findInstrs(r.Read, isEmptyTest) {
+	for _, in := range findU(r.Read, isEmptyTest) {
 		iff := in.(*ssa.If)
-		if firstTest == nil || dominates(iff, firstTest) {
+		if firstTest == nil || domU(iff, firstTest) {
 			firstTest = iff
 		}
 	}
@@ -515,7 +522,7 @@ func runC08(c *Ctx) {
 		o.Site(firstTest.Pos(), "packet-taking region starts at block %d", dataBlk.Index)
 		isUnlock := func(in ssa.Instruction) bool { return r.isLockCall(in, "unlock") }
 		// walk with edge stops: edges asserting head==tail (tested after the head was advanced) or closed==true
-		headStores := findInstrs(r.Read, func(in ssa.Instruction) bool { return r.isStoreTo(in, r.head) })
+		headStores := findU(r.Read, func(in ssa.Instruction) bool { return r.isStoreTo(in, r.head) })
 		reached := reachEdges(blockStart(dataBlk), func(in ssa.Instruction) bool { return isUnlock(in) || mustDo(p, isNotifySend)(in) },
 			func(from, to *ssa.BasicBlock) bool {
 				iff, ok := from.Instrs[len(from.Instrs)-1].(*ssa.If)
@@ -533,7 +540,7 @@ func runC08(c *Ctx) {
 				if emptyFact(ft, true) && iff != firstTest {
 					// must be evaluated after the head advance
 					for _, hs := range headStores {
-						if dominates(hs, iff) && dataBlk.Dominates(hs.Block()) {
+						if domU(hs, iff) && dataBlk.Dominates(hs.Block()) {
 							return true
 						}
 					}
@@ -546,7 +553,7 @@ func runC08(c *Ctx) {
 				o.Fail(in.Pos(), "Read can take a packet and release the lock without re-posting the wake-up token although more packets may be buffered: a second parked reader stays asleep with a packet buffered")
 			}
 		}
-		for _, s := range findInstrs(r.Read, isNotifySend) {
+		for _, s := range rootEvents(p, r.Read, isNotifySend) {
 			o.Site(s.Pos(), "baton send")
 		}
 	}
@@ -557,15 +564,15 @@ func runC08(c *Ctx) {
 		o.Fail(r.Read.Pos(), "no non-blocking test of %s.Done() found in Read", r.readDeadline)
 	} else {
 		o.Site(preSel.Pos(), "non-blocking test of Done()")
-		locks := findInstrs(r.Read, func(in ssa.Instruction) bool { return r.isLockCall(in, "lock") })
+		locks := findU(r.Read, func(in ssa.Instruction) bool { return r.isLockCall(in, "lock") })
 		for _, l := range locks {
-			if !dominates(preSel, l) {
+			if !domU(preSel, l) {
 				o.Fail(l.Pos(), "the buffer is locked on a path that has not tested the deadline first")
 			}
 		}
 		cs, _ := caseBlocks(preSel)
 		if blk := cs[0]; blk != nil {
-			if ok, bad := mustPass(blockStart(blk), isExit, func(in ssa.Instruction) bool { return isErrorReturn(in) }); !ok {
+			if ok, bad := mustPassU(blockStart(blk), isExit, func(in ssa.Instruction) bool { return isErrorReturn(in) }); !ok {
 				_ = bad
 			}
 			good := false
@@ -605,7 +612,7 @@ func runC08(c *Ctx) {
 		if !waitSel.Blocking {
 			o.Fail(waitSel.Pos(), "the wait on the wake-up channel is non-blocking (busy loop)")
 		}
-		if la.holds(waitSel, r.recv(r.Read)+"."+r.mutex, false) {
+		if la.holdsOwner(waitSel, r.T, false) {
 			o.Fail(waitSel.Pos(), "Read waits while holding the mutex: writers can never post")
 		}
 	}
@@ -655,7 +662,7 @@ func lastCaseBlock(sel *ssa.Select) *ssa.BasicBlock {
 // sameCritical: no unlock of the buffer mutex on any path between a and b (either order).
 func sameCritical(r *bufRoles, a, b ssa.Instruction) bool {
 	first, second := a, b
-	if dominates(b, a) {
+	if domU(b, a) {
 		first, second = b, a
 	}
 	return !unlockBetween(r, first, second)
@@ -663,7 +670,7 @@ func sameCritical(r *bufRoles, a, b ssa.Instruction) bool {
 
 // unlockBetween: some path from a to b passes an unlock of the buffer mutex.
 func unlockBetween(r *bufRoles, a, b ssa.Instruction) bool {
-	re := reach(posAfter(a), func(in ssa.Instruction) bool { return in == b })
+	re := reachU(posAfter(a), func(in ssa.Instruction) bool { return in == b })
 	for in := range re {
 		if r.isLockCall(in, "unlock") && canReach(posAfter(in), b, nil) {
 			return true
@@ -672,23 +679,33 @@ func unlockBetween(r *bufRoles, a, b ssa.Instruction) bool {
 	return false
 }
 
-// reachEdges is reach with an additional edge filter: edges for which stopEdge returns
+// reachEdges is reachU with an additional edge filter: edges for which stopEdge returns
 // true are not traversed.
 func reachEdges(start ipos, stop func(ssa.Instruction) bool, stopEdge func(from, to *ssa.BasicBlock) bool) map[ssa.Instruction]bool {
 	out := map[ssa.Instruction]bool{}
-	full := map[*ssa.BasicBlock]bool{}
-	var walk func(p ipos)
-	walk = func(p ipos) {
+	seen := map[string]bool{}
+	var walk func(p ipos, stack []ssa.Instruction)
+	walk = func(p ipos, stack []ssa.Instruction) {
 		if p.i == 0 {
-			if full[p.b] {
+			k := fmt.Sprintf("%p|%s", p.b, stackKey(stack))
+			if seen[k] {
 				return
 			}
-			full[p.b] = true
+			seen[k] = true
 		}
 		for i := p.i; i < len(p.b.Instrs); i++ {
 			in := p.b.Instrs[i]
+			if _, isRet := in.(*ssa.Return); isRet && len(stack) > 0 {
+				top := stack[len(stack)-1]
+				walk(posAfter(top), stack[:len(stack)-1])
+				return
+			}
 			out[in] = true
 			if stop != nil && stop(in) {
+				return
+			}
+			if h := helperCallee(in); h != nil && len(stack) < unitDepth && !onStack(stack, h) {
+				walk(entryPos(h), append(append([]ssa.Instruction{}, stack...), in))
 				return
 			}
 		}
@@ -696,9 +713,9 @@ func reachEdges(start ipos, stop func(ssa.Instruction) bool, stopEdge func(from,
 			if stopEdge != nil && stopEdge(p.b, s) {
 				continue
 			}
-			walk(ipos{s, 0})
+			walk(ipos{s, 0}, stack)
 		}
 	}
-	walk(start)
+	walk(start, nil)
 	return out
 }
